@@ -105,6 +105,30 @@ def rule_yield_filtered(ctx: Ctx, rule: str) -> None:
     ctx.ob(rule, 'glob:Glob.glob/yields-filtered', not bad, repo.loc('glob', g.node),
            'everything yielded is _format_path(match, is_dir, <dir_only of the last part>) for a match that _is_excluded(match, is_dir) rejected',
            f'{n_y} yields agree' if not bad else sorted(set(bad))[0][:200], witness="glob('**', flags=GLOBSTAR|NEGATE, exclude='*.py') must not return any .py file")
+    # a pattern that starts with a literal segment: what comes back from _get_starting_paths is a candidate, not a fact --
+    # it is searched below only if it is a directory, and returned as it is only if it exists
+    bad_s = []
+    n_s = 0
+    for p in paths:
+        focus(p)
+        sp = [e for e in p.of('call') if e[1] == 'glob:Glob._get_starting_paths']
+        if not sp:
+            continue
+        res = 'glob:Glob._get_starting_paths(' + ', '.join(_tag(a) for a in sp[0][2]) + ')'
+        S, D = f'elem({res})[0]', f'elem({res})[1]'
+        for e in p.of('call'):
+            if e[1] == 'glob:Glob._glob' and e[2] and _tag(e[2][0]) == S:
+                n_s += 1
+                if p.decisions.get(D) is not True:
+                    bad_s.append('the literal start is searched below without having been found to be a directory')
+            if e[1] == 'glob:Glob._format_path' and e[2] and _tag(e[2][0]) == S:
+                n_s += 1
+                if p.decisions.get(f'glob:Glob._lexists({S})') is not True:
+                    bad_s.append('the literal start is returned without an existence test')
+    ctx.ob(rule, 'glob:Glob.glob/literal-start-is-real', n_s >= 3 and not bad_s, repo.loc('glob', g.node),
+           'a literal first segment is descended into only if it is a directory and returned only if it exists (lexists relative to the root)',
+           f'{n_s} uses agree' if n_s >= 3 and not bad_s else (sorted(set(bad_s))[0] if bad_s else f'{n_s} uses'),
+           witness="with a regular file f.txt: glob('f.txt/**', GLOBSTAR) returns ['f.txt/']; glob('./', root_dir='/nonexistent') returns ['./']")
     fp = repo.func('glob', 'Glob._format_path')
     _ev, fps = tabulate_method(repo, 'glob', 'Glob._format_path', {}, [Opaque('path'), Opaque('is_dir'), Opaque('dir_only')], inline=True, no_inline=VOC)
     bad2 = []
